@@ -33,3 +33,10 @@ from . import gen_pandas
 def _pandas(repo):
     files, info = gen_pandas.generate(repo)
     return files, {k: v for k, v in info.items() if k in ("translated", "hand")}
+from . import gen_effects
+
+
+@register_gen("effects")
+def _effects(repo):
+    files, info = gen_effects.generate(repo)
+    return files, {k: v for k, v in info.items() if k in ("translated", "hand")}
